@@ -317,6 +317,7 @@ func (s *Stream) startConsume(consumer Consumer, packetType PacketType, extra st
 	verifhook.Point("media.join.registered", s, consumer)
 
 	go c.consume()
+	verifhook.Point("media.join.started", s, consumer)
 
 	// 流可能在查找到它之后、注册消费者之前(或同时)被关闭：
 	// close 先置状态再清理消费者，这里先注册再检查状态，两者至少有一方能看到对方
